@@ -471,7 +471,8 @@ CHECKS = {
                 "and the all-in-one state equals the step-by-step state "
                 "(info and voxels of every scale)."
                 " Option sets include --outside-value 0, ranges through the default lower bound and descending ranges."
-                " A uint8 volume with header scaling and an option set with --ignore-scaling alone are included.",
+                " A uint8 volume with header scaling and an option set with --ignore-scaling alone are included."
+                " The slice-stack workflow cuts the stack in one of six orientations per unit.",
         "note": "Volumes of at most 130x20x40 voxels; the all-in-one "
                 "command has no --sharding option, so that equality is "
                 "checked for unsharded option sets only.",
